@@ -55,6 +55,7 @@ class ModSpec:
         self.defaults = {}      # struct name -> ensures text for default()
         self.drop_fns = set()
         self.structural = set()
+        self.private = set()   # structs whose fields stay private (type invariants)
         self.rewrites = []      # (fnkey or '*', literal_from, literal_to, reason)
         self.uses = []
 
@@ -180,6 +181,8 @@ def parse_vspec(path, name):
             ms.defaults[sname] = expr.strip()
         elif d == 'structural':
             ms.structural.update(arg.split())
+        elif d == 'private':
+            ms.private.update(arg.split())
         elif d == 'rewrite':
             rm = re.match(r'`([^`]*)`\s*=>\s*`([^`]*)`\s*(.*)$', arg, re.S)
             if not rm:
@@ -719,7 +722,7 @@ class Splicer:
                 out.emit('\n'.join(attrs + [t]))
             elif it.kind in ('struct', 'enum', 'union'):
                 a2, had_ib, had_default = rewrite_attrs(attrs, out, it.name, ms)
-                out.emit('\n'.join(a2 + [publicise_struct(it.text[it.decl_off - it.start:], it.kind, out)]))
+                out.emit('\n'.join(a2 + [it.text[it.decl_off - it.start:] if it.name in ms.private else publicise_struct(it.text[it.decl_off - it.start:], it.kind, out)]))
                 _real_out = out
                 if it.kind == 'enum':
                     out = self._deferred_out = getattr(self, '_deferred_out', None) or Deferred()
